@@ -6,6 +6,7 @@ import numpy as np
 from static_frame.core.util import immutable_filter
 from static_frame.core.util import DTYPE_OBJECT
 from static_frame.core.util import array_deepcopy
+from static_frame.core.util import CACHE_UPDATE_LOCK
 
 class ArrayGO:
     '''
@@ -78,6 +79,12 @@ class ArrayGO:
 
     #---------------------------------------------------------------------------
     def _update_array_cache(self) -> None:
+        with CACHE_UPDATE_LOCK:
+            self._update_array_cache_locked()
+
+    def _update_array_cache_locked(self) -> None:
+        if not self._recache: # another thread already updated
+            return
         if self._array_mutable is not None:
             if self._array is not None:
                 len_base = len(self._array)
